@@ -35,6 +35,11 @@ type instructionType struct {
 	// instruction.
 	immediate immType
 
+	// rs1Imm indicates that the rs1 field of an instruction does not encode a
+	// register number but a 5 bit unsigned immediate value (CSR immediate
+	// instructions). The value is listed among instruction arguments.
+	rs1Imm bool
+
 	// instrType is set of instruction types of an opcode.
 	instrType model.Type
 
